@@ -19,6 +19,7 @@ def flow(prefix, profiles, variant, quick, thorough, **kw):
 
 C01_PROFILES = ["general", "rowhigh-any", "multirow", "turned", "polarity", "dense", "obstruction", "big"]
 CROWDED = ["crowded"]
+FARAWAY = ["faraway"]
 
 PLANS = {
     "C01": {
@@ -32,7 +33,8 @@ PLANS = {
                         "g++ ASan/UBSan runtimes; library assert()s compiled in (asan, fast builds)"],
         "trusted_base": ["harness/circ.hpp legality oracle", "g++ 12 sanitizer runtimes"],
         "runs": flow("c01", C01_PROFILES, "asan", 4000, 12000) + flow("c01", C01_PROFILES, "fast", 0, 60000)
-                + flow("c01", CROWDED, "asan", 1500, 6000) + flow("c01", CROWDED, "fast", 0, 40000),
+                + flow("c01", CROWDED, "asan", 1500, 6000) + flow("c01", CROWDED, "fast", 0, 40000)
+                + flow("c01", FARAWAY, "asan", 2000, 8000) + flow("c01", FARAWAY, "fast", 0, 40000),
     },
     "C02": {
         "level": "exploration",
@@ -43,6 +45,7 @@ PLANS = {
         "assumptions": ["legality oracle independent of the library", "tall cells compared with the first callback state and the legalize-only copy"],
         "runs": flow("c02.api", C01_PROFILES, "asan", 1500, 6000) + flow("c02.api", C01_PROFILES, "fast", 0, 10000)
                 + flow("c02.api", CROWDED, "asan", 400, 2000) + flow("c02.api", CROWDED, "fast", 0, 10000)
+                + flow("c02.api", FARAWAY, "asan", 1000, 4000) + flow("c02.api", FARAWAY, "fast", 0, 10000)
                 + [R("h_dp", "asan", "c02.opt", 6000, 30000), R("h_dp", "fast", "c02.opt", 0, 60000),
                    R("h_dp", "fast", "c02.ds.closure", 1080, 1080, exhaustive=True),
                    R("h_dp", "asan", "c02.ds.walk", 20000, 200000)],
@@ -66,7 +69,8 @@ PLANS = {
                 "distinct = feature signature x outcome",
         "assumptions": ["rows at one y share one orientation (C01 domain)"],
         "runs": flow("c04", C01_PROFILES, "asan", 2000, 8000) + flow("c04", ["polarity", "multirow", "general"], "fast", 0, 20000)
-                + flow("c04", CROWDED, "asan", 400, 2000) + flow("c04", CROWDED, "fast", 0, 10000),
+                + flow("c04", CROWDED, "asan", 400, 2000) + flow("c04", CROWDED, "fast", 0, 10000)
+                + flow("c04", FARAWAY, "asan", 1000, 4000),
     },
     "C05": {
         "level": "exploration",
@@ -77,7 +81,8 @@ PLANS = {
         "runs": flow("c05", ["general", "nets", "polarity", "dense", "multirow", "rowhigh-any"], "asan", 2000, 8000)
                 + flow("c05", ["general", "nets", "polarity", "dense", "multirow", "rowhigh-any"], "fast", 0, 12000)
                 + [R("h_dp", "asan", "c05.opt", 6000, 30000), R("h_dp", "fast", "c05.opt", 0, 60000)]
-                + flow("c05", CROWDED, "asan", 400, 2000) + flow("c05", CROWDED, "fast", 0, 10000),
+                + flow("c05", CROWDED, "asan", 400, 2000) + flow("c05", CROWDED, "fast", 0, 10000)
+                + flow("c05", FARAWAY, "asan", 2000, 8000) + flow("c05", FARAWAY, "fast", 0, 20000),
     },
     "C07": {
         "level": "exploration",
